@@ -84,6 +84,18 @@ def clamp_helpers(module_funcs):
     return out
 
 
+def _drawn_inside(fi, arg):
+    """the argument is a local filled element by element with random.uniform(joint_mins[j], joint_maxs[j])"""
+    if not isinstance(arg, ast.Name):
+        return False
+    for n in walk_own(fi.node):
+        if isinstance(n, ast.Assign) and isinstance(n.targets[0], ast.Subscript) and isinstance(n.targets[0].value, ast.Name) and n.targets[0].value.id == arg.id:
+            v = n.value
+            if isinstance(v, ast.Call) and src(v.func) == 'random.uniform' and len(v.args) == 2 and 'joint_mins' in src(v.args[0]) and 'joint_maxs' in src(v.args[1]):
+                return True
+    return False
+
+
 def clamp_sites(fnode, helpers):
     """(while node, statement that clamps, loop node, (vector, lower, upper) names inside the loop, call or None)"""
     out = [(w, lp, lp, None, None) for (w, lp) in clamp_loops(fnode)]
@@ -341,6 +353,84 @@ def check(model, rep):
             if not bad:
                 rep.ob('R07.4', fi, 'state coherent on every exit of ' + fi.name, True, '%d exits' % n_exits)
 
+    # ---------------------------------------------------------------- R07.9
+    rep.rule('R07.9', 'IKinSpaceConstrained: the pose error that can end the search is never evaluated for an unclamped joint vector - the start '
+                      'vector is clamped before the first evaluation (or by the caller)')
+    kth9 = kc.params[3]
+    body9 = [s_ for s_ in kc.body()]
+    first_eval = next((k_ for k_, s_ in enumerate(body9) if isinstance(s_, ast.Assign) and any(
+        isinstance(c_, ast.Call) and (src(c_.func).endswith('FKinSpace')) for c_ in ast.walk(s_.value))), None)
+    first_loop = next((k_ for k_, s_ in enumerate(body9) if isinstance(s_, ast.While)), len(body9))
+    if first_eval is None or first_eval > first_loop:
+        # no evaluation before the loop: a rotated loop (`while True: evaluate; if done: break; update; clamp`) evaluates the raw start too
+        wl9 = [s_ for s_ in body9 if isinstance(s_, ast.While)]
+        pre = body9[:first_loop] + (wl9[0].body if wl9 else [])
+        first_eval = next((k_ for k_, s_ in enumerate(pre) if isinstance(s_, ast.Assign) and any(
+            isinstance(c_, ast.Call) and (src(c_.func).endswith('FKinSpace')) for c_ in ast.walk(s_.value))), None)
+        head = pre[:first_eval] if first_eval is not None else pre
+    else:
+        head = body9[:first_eval]
+    helpers9 = clamp_helpers({**tv.toplevel_funcs(fm.tree)})
+    clamped_in_kernel = any(_is_clamp_loop(s_) for s_ in head) or any(
+        isinstance(c_, ast.Call) and ((isinstance(c_.func, ast.Name) and c_.func.id in helpers9) or src(c_.func) in ('np.clip', 'numpy.clip'))
+        for s_ in head for c_ in ast.walk(s_))
+    # ... or every caller in the library hands over a vector it has clamped (thetaProtector) or drawn inside the limits
+    callers_ok = True
+    n_calls9 = 0
+    for f_ in model.all_funcs:
+        for c_ in walk_own(f_.node):
+            if isinstance(c_, ast.Call) and src(c_.func).endswith('IKinSpaceConstrained') and len(c_.args) > 3:
+                n_calls9 += 1
+                a_ = Inliner(f_).expand(c_.args[3])
+                t_ = norm_text(a_)
+                if not ('thetaProtector(' in t_ or 'np.clip(' in t_):
+                    callers_ok = callers_ok and _drawn_inside(f_, c_.args[3])
+    rep.ob('R07.9', kc, 'start vector clamped before the first error evaluation', clamped_in_kernel or (n_calls9 > 0 and callers_ok),
+           'the error of the raw start vector `%s` can already report success: started outside the limits at (or near) the goal the solver returns '
+           'that vector with success, the arm then clamps it, and the pose it reports as reached is not reached' % kth9, line=kc.node.lineno)
+    rep.floor('R07.9', 'library call sites of IKinSpaceConstrained', n_calls9, 2)
+    # ---------------------------------------------------------------- R07.8
+    rep.rule('R07.8', 'IKFree reports success only on a path where the pose error of the very joint vector it returns was evaluated through FK and '
+                      'found below the tolerance')
+    from ..engine.paths import paths_of
+    ikf = arm.methods.get('IKFree')
+    if ikf is None:
+        raise AnalysisError('anchor vanished: Arm.IKFree')
+    goal_p = ikf.params[1]
+    n_succ = 0
+    for pth in paths_of(ikf.node, ikf.params):
+        if pth.ret in (None, '<none>'):
+            continue
+        try:
+            rt = ast.parse(pth.ret_src, mode='eval').body
+        except SyntaxError:
+            continue
+        if not (isinstance(rt, ast.Tuple) and len(rt.elts) == 2 and isinstance(rt.elts[1], ast.Constant) and rt.elts[1].value is True):
+            continue
+        n_succ += 1
+        vec = ast.unparse(rt.elts[0]).replace(' ', '')
+        ok = False
+        for text, tr in pth.facts.items():
+            if tr is not True:
+                continue
+            try:
+                f_ = ast.parse(pth.fact_src.get(text, text), mode='eval').body
+            except SyntaxError:
+                continue
+            if not (isinstance(f_, ast.Compare) and len(f_.ops) == 1 and isinstance(f_.ops[0], (ast.Lt, ast.LtE, ast.Gt, ast.GtE))):
+                continue
+            lhs = f_.left if isinstance(f_.ops[0], (ast.Lt, ast.LtE)) else f_.comparators[0]        # the side that must be small
+            fk_calls = [c for c in ast.walk(lhs) if isinstance(c, ast.Call) and ast.unparse(c.func) == 'self.FK' and c.args
+                        and ast.unparse(c.args[0]).replace(' ', '') == vec]
+            mentions_goal = goal_p in {x.id for x in ast.walk(lhs) if isinstance(x, ast.Name)}
+            if fk_calls and mentions_goal:
+                ok = True
+        rep.ob('R07.8', ikf, 'success path of IKFree (line %s)' % pth.ret_line, ok,
+               'IKFree returns (%s, True) on a path whose conditions (%s) never compare FK(%s) with the goal: the reported success rests on '
+               'something else than the pose the returned joints reach (e.g. the optimiser\'s residual, evaluated for a clamped copy)'
+               % (vec[:40], '; '.join('%s is %s' % (k_[:60], v_) for k_, v_ in sorted(pth.facts.items()))[:160], vec[:40]), line=pth.ret_line)
+    rep.floor('R07.8', 'success paths of IKFree', n_succ, 1)
+
     from .c02 import closure_obligations
     n = closure_obligations(model, rep, 'R07.7', [kc, arm.methods['IK'], arm.methods['constrainedIK']], 'the Newton IK solvers (FKinSpace, JacobianSpace, MatrixLog6, Adjoint, TransInv, IKinSpace)')
     rep.floor('R07.7', 'shared primitives under the IK solvers', len(n), 10)
@@ -349,12 +439,15 @@ def check(model, rep):
     node = copy.deepcopy(kc.node)
     for w in [n for n in ast.walk(node) if isinstance(n, ast.While)]:
         w.body = [st for st in w.body if not _is_clamp_loop(st)]
+    node.body = [st for st in node.body if not _is_clamp_loop(st)]        # a clamp of the start vector before the first evaluation
 
     class _Strip(ast.NodeTransformer):
         def visit_Call(s_, n):
             s_.generic_visit(n)
             if isinstance(n.func, ast.Name) and n.func.id in helpers and len(n.args) == 3:
                 return n.args[0]            # clamp(x, lo, hi) without the clamp is x
+            if src(n.func) in ('np.clip', 'numpy.clip') and len(n.args) == 3 and not n.keywords:
+                return n.args[0]
             return n
     node = _Strip().visit(node)
     try:
